@@ -13,11 +13,11 @@ CHECKS = {
  "C13": dict(technique="TLC invariants on Gemini.tla (permutation invariance of canonical term bags, zero/independence, MI=log K, bounds) + replay of every case into the code",
              text="The invariances are theorems of the specification checked by TLC in exact arithmetic on every enumerated case (open and closed simplex); the code is run on the same cases, their permutations and empty-cluster extensions.",
              note="small grids; closed-simplex tolerances account for epsilon clipping", ref="DESIGN §4 C13"),
- "C08": dict(technique="TLA+ spec (KauriCore/Kauri.tla) enumerated by TLC: exact candidate tables for every reachable tree state replayed into find_best_split (compiled + interpreted .pyx); real fits trace-validated against KauriTrace",
-             text="TLC enumerates datasets x kernels x (max_clusters, min_samples_leaf) x every intermediate state reachable by any admissible split and computes the gain of every candidate as the objective difference in exact integers; the real find_best_split must return an admissible candidate with that exact gain which is a maximiser. Real Kauri.fit runs are validated step by step (gain, best, score = root + sum of gains).",
-             note="integer data/kernels, n<=6; the double-star gain defect in _utils.pyx is a known finding (cannot re-cythonise here); compiled .so and .pyx source are both exercised", ref="DESIGN §4 C08"),
- "C09": dict(technique="TLC model-checks the Kauri.fit state machine (KauriFit.tla invariants) and validates recorded real fits against KauriTrace.tla",
-             text="The structural limits, routing = partition, tree shape and termination are invariants of the KauriFit specification, model-checked for all datasets on a grid x hyperparameters; every real fit over a parameter grid is recorded at find_best_split and validated as a behaviour of the specification with the invariants evaluated on every state, the final tree_/labels_/predict/score compared with the specification's.",
+ "C08": dict(technique="TLA+ spec (KauriCore/Kauri.tla) enumerated by TLC: exact candidate tables for every reachable tree state replayed into find_best_split (compiled + interpreted .pyx); real fits trace-validated against KauriTrace; KauriGlue.tla behaviours (scripted search) replayed into the Python side of Kauri.fit",
+             text="TLC enumerates datasets x kernels x (max_clusters, min_samples_leaf) x every intermediate state reachable by any admissible split and computes the gain of every candidate as the objective difference in exact integers; the real find_best_split must return an admissible candidate with that exact gain which is a maximiser. Real Kauri.fit runs are validated step by step (gain, best, score = root + sum of gains); the loop of Kauri.fit is also driven by scripted answers of every kind (KauriGlue) and what it tells the next search, stores as gains and labels is compared with the specification.",
+             note="integer data/kernels, n<=6; three defects of _utils.pyx (double-star gain, double-star undervalued, second-best reallocation target) are known findings (cannot re-cythonise here); compiled .so and .pyx source are both exercised", ref="DESIGN §4 C08"),
+ "C09": dict(technique="TLC model-checks the Kauri.fit state machine (KauriFit.tla invariants) and validates recorded real fits against KauriTrace.tla; KauriGlue.tla behaviours (scripted search) replayed into Kauri.fit",
+             text="The structural limits, routing = partition, tree shape and termination are invariants of the KauriFit specification, model-checked for all datasets on a grid x hyperparameters; every real fit over a parameter grid is recorded at find_best_split and validated as a behaviour of the specification with the invariants evaluated on every state, the final tree_/labels_/predict/score compared with the specification's; under a scripted search (KauriGlue) the explorable leaves, tree table, leaves_ and routing are compared after every kind of step.",
              note="integer datasets n<=7, d<=3; recorder wraps a module attribute (no source hook)", ref="DESIGN §4 C09"),
  "C14": dict(technique="TLA+ spec (Mlcl.tla: Accept by transitive closure, Inject in exact rationals) enumerated by TLC, every case replayed into add_mlcl_constraint and the decorated _batchify/_compute_grads",
              text="All 4096 (ML,CL) subset pairs over non-contiguous id sets, self pairs, malformed shapes, and the gradient injection for every ordered batch are enumerated by TLC with spec-internal theorems (Accept iff satisfiable; injection = gradient of the pairwise penalty); the real functions are driven with a scripted permutation and compared exactly.",
@@ -34,7 +34,7 @@ CHECKS = {
  "C10": dict(technique="TLC model-checks Train.tla (batch partition, step-count theorem); real fits recorded at _batchify/optimiser are trace-validated against TrainTrace.tla with an injective id affinity",
              text="Every batched family x affinity source x batch size x decoration is fitted for real with an id column and the injective affinity Aff(i,j)=i*n+j; TLC checks for every delivered batch that it is the next min(bs,remaining) unseen samples and that the block has exactly those rows and columns in that order, and that the number of optimiser steps is max_iter*ceil(n/bs).",
              note="n<=7; recorder wraps instance attributes and sklearn's BaseOptimizer.update_params", ref="DESIGN §4 C10"),
- "C16": dict(technique="TLA+ table specification (Params.tla, Groups.tla) enumerated by TLC: one-parameter-off configurations, group lists, malformed data; replayed into every estimator / constructor / function",
+ "C16": dict(technique="TLA+ table specification (Params.tla, Groups.tla) enumerated by TLC: one-parameter-off configurations, inconsistent combinations, group lists, malformed data; replayed into every estimator / constructor / function",
              text="Documented parameter domains (transcribed from docstrings, not from _parameter_constraints) are a TLA+ table; TLC enumerates every one-parameter-off configuration over a universe of representative values, all group lists over small feature sets and malformed inputs with the expected verdict; the real code must reject (ValueError/TypeError family, no fitted model left) or accept accordingly.",
              note="representatives, one-off + pairwise rules; unclear boundaries are marked unspecified and not asserted", ref="DESIGN §4 C16"),
  "C20": dict(technique="TLA+ protocol spec (Data.tla) of the RNG calls of the five generators; real generators run with a scripted, tagging RandomState subclass and trace-validated against DataTrace.tla; validity table replayed",
